@@ -5,7 +5,8 @@ import ZvbiModel.Search.LemmasWalk
 `positions` depends on the page statistics only.  Forward direction: the positions are strictly
 ascending in (sweep, page number, sub-page number); with enough fuel every position inside a statistics
 window is probed in the second (wrapped) sweep, and in the first sweep every such position after the
-start - except that the REST OF THE START PAGE is abandoned when `start + 1` is outside the window.
+start, the rest of the start page included (since ed2772e a position before the window is clamped to the
+first sub-page of the window instead of leaving the page).
 -/
 namespace Zvbi.Search
 
@@ -44,7 +45,8 @@ theorem LtF_of_spec {c : Cache} {p sub : Int} {w : Bool} {p' s' : Int} {w' : Boo
   obtain ⟨_, _, hd⟩ := h
   unfold LtF
   simp only
-  rcases hd with ⟨hw, hpp, hss⟩ | ⟨_, hw, hlt, _, _⟩ | ⟨_, hw, hw', _, _, _⟩
+  rcases hd with ⟨hw, hpp, hss, _⟩ | ⟨hw, hpp, _, hlt, hss⟩ | ⟨_, hw, hlt, _, _⟩ | ⟨_, hw, hw', _, _, _⟩
+  · right; exact ⟨hw.symm, Or.inr ⟨hpp.symm, by omega⟩⟩
   · right; exact ⟨hw.symm, Or.inr ⟨hpp.symm, by omega⟩⟩
   · right; exact ⟨hw.symm, Or.inl hlt⟩
   · left; exact ⟨hw, hw'⟩
@@ -54,7 +56,8 @@ theorem LtB_of_spec {c : Cache} {p sub : Int} {w : Bool} {p' s' : Int} {w' : Boo
   obtain ⟨_, _, hd⟩ := h
   unfold LtB
   simp only
-  rcases hd with ⟨hw, hpp, hss⟩ | ⟨_, hw, hlt, _, _⟩ | ⟨_, hw, hw', _, _, _⟩
+  rcases hd with ⟨hw, hpp, hss, _⟩ | ⟨hw, hpp, _, hlt, hss⟩ | ⟨_, hw, hlt, _, _⟩ | ⟨_, hw, hw', _, _, _⟩
+  · right; exact ⟨hw.symm, Or.inr ⟨hpp.symm, by omega⟩⟩
   · right; exact ⟨hw.symm, Or.inr ⟨hpp.symm, by omega⟩⟩
   · right; exact ⟨hw.symm, Or.inl hlt⟩
   · left; exact ⟨hw, hw'⟩
@@ -65,10 +68,11 @@ theorem positions_succ (c : Cache) (dir : Int) (n : Nat) (p sub : Int) (w : Bool
       | some (some (p', s', w')) => (p', s', w') :: positions c dir n p' s' w'
       | _ => [] := rfl
 
-/-- every probed position lies inside its page's statistics window, after the current position, and the
+/-- every probed position is `Landed` (inside its page's statistics window, or the window's first sub-page number
+    in walking direction - the same thing when `subno_min <= subno_max`), after the current position, and the
     list is strictly ascending (forward) -/
 theorem positions_sorted_fwd (c : Cache) : ∀ (n : Nat) (p sub : Int) (w : Bool), PgOk p →
-    (∀ x ∈ positions c 1 n p sub w, LtF (p, sub, w) x ∧ PgOk x.1 ∧ inRange (c.stat x.1) x.2.1 = true) ∧
+    (∀ x ∈ positions c 1 n p sub w, LtF (p, sub, w) x ∧ PgOk x.1 ∧ Landed (c.stat x.1) x.2.1) ∧
     (positions c 1 n p sub w).Pairwise LtF := by
   intro n
   induction n with
@@ -95,7 +99,7 @@ theorem positions_sorted_fwd (c : Cache) : ∀ (n : Nat) (p sub : Int) (w : Bool
         exact ⟨fun x hx => (ih1 x hx).1, ih2⟩
 
 theorem positions_sorted_bwd (c : Cache) : ∀ (n : Nat) (p sub : Int) (w : Bool), PgOk p →
-    (∀ x ∈ positions c (-1) n p sub w, LtB (p, sub, w) x ∧ PgOk x.1 ∧ inRange (c.stat x.1) x.2.1 = true) ∧
+    (∀ x ∈ positions c (-1) n p sub w, LtB (p, sub, w) x ∧ PgOk x.1 ∧ Landed (c.stat x.1) x.2.1) ∧
     (positions c (-1) n p sub w).Pairwise LtB := by
   intro n
   induction n with
@@ -122,13 +126,12 @@ theorem positions_sorted_bwd (c : Cache) : ∀ (n : Nat) (p sub : Int) (w : Bool
         exact ⟨fun x hx => (ih1 x hx).1, ih2⟩
 
 /-- `(q, t, wt)` is still ahead of a forward walk standing at `(p, sub, w)`: a later page of the same sweep,
-    or a later sub-page of the same page PROVIDED the next sub-page number is not below the window, or
-    anything in the wrapped sweep while the walk is in its first sweep -/
-def AheadF (c : Cache) (p sub : Int) (w : Bool) (q t : Int) (wt : Bool) : Prop :=
-  (wt = w ∧ (p < q ∨ (p = q ∧ sub < t ∧ ((c.stat p).subMin.toNat : Int) ≤ sub + 1))) ∨ (w = false ∧ wt = true)
+    or a later sub-page of the same page, or anything in the wrapped sweep while the walk is in its first sweep -/
+def AheadF (p sub : Int) (w : Bool) (q t : Int) (wt : Bool) : Prop :=
+  (wt = w ∧ (p < q ∨ (p = q ∧ sub < t))) ∨ (w = false ∧ wt = true)
 
 theorem positions_complete_fwd (c : Cache) : ∀ (n : Nat) (p sub : Int) (w : Bool), PgOk p → rankF p sub w < n →
-    ∀ (q t : Int) (wt : Bool), PgOk q → inRange (c.stat q) t = true → AheadF c p sub w q t wt →
+    ∀ (q t : Int) (wt : Bool), PgOk q → inRange (c.stat q) t = true → AheadF p sub w q t wt →
       (q, t, wt) ∈ positions c 1 n p sub w := by
   intro n
   induction n with
@@ -141,55 +144,66 @@ theorem positions_complete_fwd (c : Cache) : ∀ (n : Nat) (p sub : Int) (w : Bo
     have hact : Active c q := active_of_inRange hin
     have hinq := (inRange_iff _ _).mp hin
     unfold PgOk at hq
+    -- a window position of the current page behind `sub` keeps the loop on this page
+    have hstay : p = q → sub < t → ¬ LeaveF c p (sub + 1) := by
+      intro hpq hst hlv; subst hpq
+      rcases hlv with h | h
+      · exact hinq.1 h
+      · omega
     cases res with
     | none =>
       exfalso
       obtain ⟨h0, h1, h2⟩ := hspec
-      rcases hah with ⟨hw, hlt | ⟨hpq, hst, hmin⟩⟩ | ⟨hw, hwt⟩
+      rcases hah with ⟨hw, hlt | ⟨hpq, hst⟩⟩ | ⟨hw, hwt⟩
       · exact h1 q hlt hq.2 hact
-      · subst hpq
-        have : inRange (c.stat p) (sub + 1) = true := by rw [inRange_iff]; exact ⟨hinq.1, by omega, by omega⟩
-        rw [this] at h0; cases h0
+      · exact hstay hpq hst h0
       · exact h2 hw q hq.1 hq.2 hact
     | some tt =>
       obtain ⟨p', s', w'⟩ := tt
       simp only
       have hd := rankF_decr hp hspec
       have ih' := ih p' s' w' hspec.1 (by omega) q t wt hq hin
-      obtain ⟨hp', hin', hdis⟩ := hspec
-      have hin'q := (inRange_iff _ _).mp hin'
+      obtain ⟨hp', hld', hdis⟩ := hspec
       rw [List.mem_cons]
-      rcases hdis with ⟨hw', hpp, hss⟩ | ⟨h0, hw', hlt', hss, hno⟩ | ⟨h0, hw0, hw', hss, hno1, hno2⟩
+      rcases hdis with ⟨hw', hpp, hss, _⟩ | ⟨hw', hpp, _, hcl, hss⟩ | ⟨h0, hw', hlt', hss, hir, hno⟩ |
+          ⟨h0, hw0, hw', hss, hir, hno1, hno2⟩
       · -- same page, next sub-page number
         subst hw' hpp hss
-        rcases hah with ⟨hw, hlt | ⟨hpq, hst, hmin⟩⟩ | ⟨hw, hwt⟩
+        rcases hah with ⟨hw, hlt | ⟨hpq, hst⟩⟩ | ⟨hw, hwt⟩
         · right; exact ih' (Or.inl ⟨hw, Or.inl hlt⟩)
         · by_cases ht : t = sub + 1
           · left; subst ht hpq hw; rfl
-          · right; exact ih' (Or.inl ⟨hw, Or.inr ⟨hpq, by omega, by omega⟩⟩)
+          · right; exact ih' (Or.inl ⟨hw, Or.inr ⟨hpq, by omega⟩⟩)
+        · right; exact ih' (Or.inr ⟨hw, hwt⟩)
+      · -- same page, clamped to the first sub-page of the window
+        subst hw' hpp
+        rcases hah with ⟨hw, hlt | ⟨hpq, hst⟩⟩ | ⟨hw, hwt⟩
+        · right; exact ih' (Or.inl ⟨hw, Or.inl hlt⟩)
+        · subst hpq
+          by_cases ht : t = s'
+          · left; subst ht hw; rfl
+          · right; exact ih' (Or.inl ⟨hw, Or.inr ⟨rfl, by omega⟩⟩)
         · right; exact ih' (Or.inr ⟨hw, hwt⟩)
       · -- a later page of the same sweep
         subst hw'
-        rcases hah with ⟨hw, hlt | ⟨hpq, hst, hmin⟩⟩ | ⟨hw, hwt⟩
+        have hin'q := (inRange_iff _ _).mp hir
+        rcases hah with ⟨hw, hlt | ⟨hpq, hst⟩⟩ | ⟨hw, hwt⟩
         · by_cases hq' : q < p'
           · exact absurd hact (hno q hlt hq')
           · by_cases hqe : q = p'
             · subst hqe
               by_cases ht : t = s'
               · left; subst ht hw; rfl
-              · right; exact ih' (Or.inl ⟨hw, Or.inr ⟨rfl, by omega, by omega⟩⟩)
+              · right; exact ih' (Or.inl ⟨hw, Or.inr ⟨rfl, by omega⟩⟩)
             · right; exact ih' (Or.inl ⟨hw, Or.inl (by omega)⟩)
-        · exfalso; subst hpq
-          have : inRange (c.stat p) (sub + 1) = true := by rw [inRange_iff]; exact ⟨hinq.1, by omega, by omega⟩
-          rw [this] at h0; cases h0
+        · exact absurd h0 (hstay hpq hst)
         · right; exact ih' (Or.inr ⟨hw, hwt⟩)
       · -- wrapped
         subst hw0 hw'
-        rcases hah with ⟨hw, hlt | ⟨hpq, hst, hmin⟩⟩ | ⟨_, hwt⟩
+        have hin'q := (inRange_iff _ _).mp hir
+        rcases hah with ⟨hw, hlt | ⟨hpq, hst⟩⟩ | ⟨_, hwt⟩
         · exact absurd hact (hno1 q hlt hq.2)
-        · exfalso; subst hpq
-          have : inRange (c.stat p) (sub + 1) = true := by rw [inRange_iff]; exact ⟨hinq.1, by omega, by omega⟩
-          rw [this] at h0; cases h0
+        · exact absurd h0 (hstay hpq hst)
         · subst hwt
           by_cases hq' : q < p'
           · exact absurd hact (hno2 q hq.1 hq')
@@ -197,15 +211,15 @@ theorem positions_complete_fwd (c : Cache) : ∀ (n : Nat) (p sub : Int) (w : Bo
             · subst hqe
               by_cases ht : t = s'
               · left; subst ht; rfl
-              · right; exact ih' (Or.inl ⟨rfl, Or.inr ⟨rfl, by omega, by omega⟩⟩)
+              · right; exact ih' (Or.inl ⟨rfl, Or.inr ⟨rfl, by omega⟩⟩)
             · right; exact ih' (Or.inl ⟨rfl, Or.inl (by omega)⟩)
 
 /-- mirror image of `AheadF` for the backward walk -/
-def AheadB (c : Cache) (p sub : Int) (w : Bool) (q t : Int) (wt : Bool) : Prop :=
-  (wt = w ∧ (q < p ∨ (p = q ∧ t < sub ∧ sub - 1 ≤ ((c.stat p).subMax.toNat : Int)))) ∨ (w = false ∧ wt = true)
+def AheadB (p sub : Int) (w : Bool) (q t : Int) (wt : Bool) : Prop :=
+  (wt = w ∧ (q < p ∨ (p = q ∧ t < sub))) ∨ (w = false ∧ wt = true)
 
 theorem positions_complete_bwd (c : Cache) : ∀ (n : Nat) (p sub : Int) (w : Bool), PgOk p → rankB p sub w < n →
-    ∀ (q t : Int) (wt : Bool), PgOk q → inRange (c.stat q) t = true → AheadB c p sub w q t wt →
+    ∀ (q t : Int) (wt : Bool), PgOk q → inRange (c.stat q) t = true → AheadB p sub w q t wt →
       (q, t, wt) ∈ positions c (-1) n p sub w := by
   intro n
   induction n with
@@ -218,52 +232,61 @@ theorem positions_complete_bwd (c : Cache) : ∀ (n : Nat) (p sub : Int) (w : Bo
     have hact : Active c q := active_of_inRange hin
     have hinq := (inRange_iff _ _).mp hin
     unfold PgOk at hq
+    have hstay : p = q → t < sub → ¬ LeaveB c p (sub + -1) := by
+      intro hpq hst hlv; subst hpq
+      rcases hlv with h | h
+      · exact hinq.1 h
+      · omega
     cases res with
     | none =>
       exfalso
       obtain ⟨h0, h1, h2⟩ := hspec
-      rcases hah with ⟨hw, hlt | ⟨hpq, hst, hmax⟩⟩ | ⟨hw, hwt⟩
+      rcases hah with ⟨hw, hlt | ⟨hpq, hst⟩⟩ | ⟨hw, hwt⟩
       · exact h1 q hq.1 hlt hact
-      · subst hpq
-        have : inRange (c.stat p) (sub + -1) = true := by rw [inRange_iff]; exact ⟨hinq.1, by omega, by omega⟩
-        rw [this] at h0; cases h0
+      · exact hstay hpq hst h0
       · exact h2 hw q hq.1 hq.2 hact
     | some tt =>
       obtain ⟨p', s', w'⟩ := tt
       simp only
       have hd := rankB_decr hp hspec
       have ih' := ih p' s' w' hspec.1 (by omega) q t wt hq hin
-      obtain ⟨hp', hin', hdis⟩ := hspec
-      have hin'q := (inRange_iff _ _).mp hin'
+      obtain ⟨hp', hld', hdis⟩ := hspec
       rw [List.mem_cons]
-      rcases hdis with ⟨hw', hpp, hss⟩ | ⟨h0, hw', hlt', hss, hno⟩ | ⟨h0, hw0, hw', hss, hno1, hno2⟩
+      rcases hdis with ⟨hw', hpp, hss, _⟩ | ⟨hw', hpp, _, hcl, hss⟩ | ⟨h0, hw', hlt', hss, hir, hno⟩ |
+          ⟨h0, hw0, hw', hss, hir, hno1, hno2⟩
       · subst hw' hpp hss
-        rcases hah with ⟨hw, hlt | ⟨hpq, hst, hmax⟩⟩ | ⟨hw, hwt⟩
+        rcases hah with ⟨hw, hlt | ⟨hpq, hst⟩⟩ | ⟨hw, hwt⟩
         · right; exact ih' (Or.inl ⟨hw, Or.inl hlt⟩)
         · by_cases ht : t = sub + -1
           · left; subst ht hpq hw; rfl
-          · right; exact ih' (Or.inl ⟨hw, Or.inr ⟨hpq, by omega, by omega⟩⟩)
+          · right; exact ih' (Or.inl ⟨hw, Or.inr ⟨hpq, by omega⟩⟩)
+        · right; exact ih' (Or.inr ⟨hw, hwt⟩)
+      · subst hw' hpp
+        rcases hah with ⟨hw, hlt | ⟨hpq, hst⟩⟩ | ⟨hw, hwt⟩
+        · right; exact ih' (Or.inl ⟨hw, Or.inl hlt⟩)
+        · subst hpq
+          by_cases ht : t = s'
+          · left; subst ht hw; rfl
+          · right; exact ih' (Or.inl ⟨hw, Or.inr ⟨rfl, by omega⟩⟩)
         · right; exact ih' (Or.inr ⟨hw, hwt⟩)
       · subst hw'
-        rcases hah with ⟨hw, hlt | ⟨hpq, hst, hmax⟩⟩ | ⟨hw, hwt⟩
+        have hin'q := (inRange_iff _ _).mp hir
+        rcases hah with ⟨hw, hlt | ⟨hpq, hst⟩⟩ | ⟨hw, hwt⟩
         · by_cases hq' : p' < q
           · exact absurd hact (hno q hq' hlt)
           · by_cases hqe : q = p'
             · subst hqe
               by_cases ht : t = s'
               · left; subst ht hw; rfl
-              · right; exact ih' (Or.inl ⟨hw, Or.inr ⟨rfl, by omega, by omega⟩⟩)
+              · right; exact ih' (Or.inl ⟨hw, Or.inr ⟨rfl, by omega⟩⟩)
             · right; exact ih' (Or.inl ⟨hw, Or.inl (by omega)⟩)
-        · exfalso; subst hpq
-          have : inRange (c.stat p) (sub + -1) = true := by rw [inRange_iff]; exact ⟨hinq.1, by omega, by omega⟩
-          rw [this] at h0; cases h0
+        · exact absurd h0 (hstay hpq hst)
         · right; exact ih' (Or.inr ⟨hw, hwt⟩)
       · subst hw0 hw'
-        rcases hah with ⟨hw, hlt | ⟨hpq, hst, hmax⟩⟩ | ⟨_, hwt⟩
+        have hin'q := (inRange_iff _ _).mp hir
+        rcases hah with ⟨hw, hlt | ⟨hpq, hst⟩⟩ | ⟨_, hwt⟩
         · exact absurd hact (hno1 q hq.1 hlt)
-        · exfalso; subst hpq
-          have : inRange (c.stat p) (sub + -1) = true := by rw [inRange_iff]; exact ⟨hinq.1, by omega, by omega⟩
-          rw [this] at h0; cases h0
+        · exact absurd h0 (hstay hpq hst)
         · subst hwt
           by_cases hq' : p' < q
           · exact absurd hact (hno2 q hq' hq.2)
@@ -271,7 +294,7 @@ theorem positions_complete_bwd (c : Cache) : ∀ (n : Nat) (p sub : Int) (w : Bo
             · subst hqe
               by_cases ht : t = s'
               · left; subst ht; rfl
-              · right; exact ih' (Or.inl ⟨rfl, Or.inr ⟨rfl, by omega, by omega⟩⟩)
+              · right; exact ih' (Or.inl ⟨rfl, Or.inr ⟨rfl, by omega⟩⟩)
             · right; exact ih' (Or.inl ⟨rfl, Or.inl (by omega)⟩)
 
 end Zvbi.Search
